@@ -480,7 +480,7 @@ def run(rep, programs):
         n += 1
         if not handle(rep, prog, b, kind, what, bi, span, rule):
             rep.violation(rule, "%s|%s|%s" % (b.name, kind, what), "unreviewed unsafe operation (%s %s): no obligation table entry covers it" % (kind, what), span)
-    rep.floor(rule, "unsafe operations in llfree", n, 24)
+    rep.floor(rule, "unsafe operations in llfree", n, 12)
     r_layout_table(rep, prog)
     r_nonatomic_callers(rep, prog)
     r_send_sync(rep, prog)
